@@ -106,12 +106,12 @@ pub fn exec(cx: &mut Cx, line: &str, t: &[&str]) {
     match (t[1], t[2]) {
         ("relay", "run") if t.len() == 4 => {
             let ops: Vec<Op> = t[3].split(',').filter_map(c15::parse_op).collect();
+            let idx = cx.rep.case("relay.history", Some(line));      // registered BEFORE the real code runs (watchdog attribution)
             let (got, broken) = run_relay(&cx.rt, &ops);
             let req = format!("relay run {}", ops.iter().map(c15::op_str).collect::<Vec<_>>().join(","));
             let ans = cx.ask(&req);
             let recs: Vec<Vec<&str>> = ans.split(';').map(|r| r.split('|').collect()).collect();
             let ok_shape = recs.len() == ops.len() && recs.iter().all(|r| r.len() == 6);
-            let idx = cx.rep.case("relay.history", Some(line));
             let mut first_diff: Option<String> = None;
             for (k, (g, op)) in got.iter().zip(ops.iter()).enumerate() {
                 let entry = match op { Op::Frame(..) => "relay.start_send", Op::Service(_) => "relay.service_send", Op::Tick(_) => continue };
